@@ -27,6 +27,10 @@ func (e *Engine) inputKey(st *State, name string) string {
 		st.names = map[string]int{}
 	}
 	k := st.names[name]
+	if k < 0 {
+		e.ambiguousInput = name
+		return name + "#ambiguous"
+	}
 	st.names[name] = k + 1
 	if k == 0 {
 		return name
